@@ -16,6 +16,49 @@ func init() {
 
 func runC04(cx *ctx) {
 	r := cx.rng
+	// files encrypted to a recipient whose public key differs from the identity's in ONE bit:
+	// the identity must not open them (every bit position; sampled in the quick tier, bit 255 and 0 always)
+	{
+		rr := r.Fork()
+		p := newX25519(rr)
+		_, pub, _ := bech32Decode(p.rec.(interface{ String() string }).String())
+		bits := []int{0, 1, 7, 8, 127, 128, 254, 255}
+		if cx.quick {
+			for k := 0; k < 24; k++ {
+				bits = append(bits, rr.Intn(256))
+			}
+		} else {
+			bits = nil
+			for b := 0; b < 256; b++ {
+				bits = append(bits, b)
+			}
+		}
+		for _, b := range bits {
+			b := b
+			rb := rr.Fork()
+			cx.ru.Do(func() *h.Case {
+				q := append([]byte(nil), pub...)
+				q[b/8] ^= 1 << uint(b%8)
+				s, _ := bech32Encode("age", q)
+				near, err := age.ParseX25519Recipient(s)
+				if err != nil {
+					return &h.Case{Kind: "nearmiss", Impl: "unparseable", NonTrivial: false, Note: "near-miss recipient string does not parse"}
+				}
+				pt := rb.Bytes(20)
+				file, eerr, _ := realEncryptFile(rb.Bytes(200), []age.Recipient{near}, [][]byte{pt}, false)
+				if eerr != nil {
+					return &h.Case{Kind: "nearmiss", Impl: "encrypt-failed", NonTrivial: true, Note: eerr.Error()}
+				}
+				return fdecCase("nearmiss", file, []age.Identity{p.id}, []string{p.idD}, fmt.Sprintf("file encrypted to the identity's public key with bit %d flipped", b),
+					func(out []byte, class string, consulted int) string {
+						if class != "err nomatch1" {
+							return fmt.Sprintf("an identity opened (or did not cleanly refuse) a file addressed to a key differing in bit %d: %s", b, class)
+						}
+						return ""
+					})
+			})
+		}
+	}
 	for i := 0; i < cx.n(1000, 10000); i++ {
 		rr := r.Fork()
 		cx.ru.Do(func() *h.Case {
